@@ -49,3 +49,16 @@ Fixpoint mmismatches_from (files : list (list lstr)) (i : nat) (cs : list mcase)
   end.
 Definition mmismatches (fs : list fsrc) (cs : list mcase) : list (nat * list Z) :=
   mmismatches_from (resolve [] fs) 0 cs.
+
+(* ---- the year of the fertiliser-prediction date: PredDateModel.langtag_year vs the real LangTagConverter ---- *)
+From Hermes Require Import PredDateModel.
+Fixpoint pmismatches_from (i : nat) (cs : list (Z * Z * string * Z)) : list (nat * list Z) :=
+  match cs with
+  | [] => []
+  | (fm, cent, text, yr) :: r =>
+      match langtag_year cent (fmt_of_z fm) (lstr_of text) with
+      | Some y => if y =? yr then pmismatches_from (S i) r else (i, [y]) :: pmismatches_from (S i) r
+      | None => (i, [88888]) :: pmismatches_from (S i) r
+      end
+  end.
+Definition pmismatches (fs : list fsrc) (cs : list (Z * Z * string * Z)) : list (nat * list Z) := pmismatches_from 0 cs.
